@@ -1,0 +1,54 @@
+//go:build verif
+
+package handler
+
+import (
+	"encoding/json"
+	"fmt"
+	"net/http"
+	"net/http/httptest"
+	"testing"
+	"time"
+
+	"github.com/gotid/god/internal/verifdrv"
+	"github.com/gotid/god/lib/logx"
+	"github.com/gotid/god/lib/stat"
+	"github.com/gotid/god/lib/timex"
+)
+
+// TestVerifDriverC01: {"arg": status} -> 30 requests answered with that status through a fresh
+// BreakerHandler, then 60 more: "ok" is false iff any request was cut off with 503 by the
+// breaker (30 failure marks give a drop ratio of 25/31 and more; success marks never drop).
+func TestVerifDriverC01(t *testing.T) {
+	logx.Disable()
+	metrics := stat.NewMetrics("verif")
+	n := 0
+	verifdrv.Run(t, func(raw json.RawMessage) any {
+		var c struct {
+			Arg int `json:"arg"`
+		}
+		if err := json.Unmarshal(raw, &c); err != nil {
+			return map[string]any{"error": err.Error()}
+		}
+		timex.VerifSetNow(time.Hour)
+		defer timex.VerifClockOff()
+		n++
+		reached := 0
+		h := BreakerHandler(http.MethodGet, fmt.Sprintf("/verif/%d", n), metrics)(http.HandlerFunc(
+			func(w http.ResponseWriter, r *http.Request) {
+				reached++
+				w.WriteHeader(c.Arg)
+			}))
+		dropped := 0
+		for i := 0; i < 90; i++ {
+			rec := httptest.NewRecorder()
+			req := httptest.NewRequest(http.MethodGet, "http://localhost/verif", nil)
+			before := reached
+			h.ServeHTTP(rec, req)
+			if reached == before {
+				dropped++
+			}
+		}
+		return map[string]any{"ok": dropped == 0, "dropped": dropped}
+	})
+}
